@@ -299,4 +299,8 @@ theorem allocLoop_miss {t : Tab} {h : Int} (hh : h < 0) (size : Int) :
       exact ih fuel (z : Int) _ hl.2.2 (by simp at hf; omega) hzR.1
         (fun w hw => hR w (List.mem_cons_of_mem _ hw)) (fun w hw => hsm w (List.mem_cons_of_mem _ hw))
 
+@[simp] theorem heads_pAddToFree (t : Tab) (h u : Int) : (pAddToFree t h u).heads = t.heads := by simp [pAddToFree]
+@[simp] theorem heads_pRemoveFromFree (t : Tab) (h u : Int) : (pRemoveFromFree t h u).heads = t.heads := by
+  simp [pRemoveFromFree]
+
 end Mmtk.FreeList
